@@ -264,6 +264,8 @@ pub struct FrontendCtx<'a, R: FileManager> {
     pub type_application_stack: Vec<(String, Runtype)>,
     // how many generic instantiations are being expanded inside one another
     instantiation_depth: usize,
+    // module item addresses whose import/export chain is being followed
+    resolving_addresses: Vec<ModuleItemAddress>,
     jsdoc_cache_by_file: BTreeMap<BffFileName, JsdocFileCache>,
 }
 
@@ -443,7 +445,22 @@ trait TypeModuleWalker<'a, R: FileManager + 'a, U> {
         }
     }
 
+    // re-export cycles (`a.ts: export { A } from "./b"`, `b.ts: export { A } from "./a"`) lead back to
+    // an address that is already being resolved: report it instead of chasing it forever
     fn get_addressed_item(&mut self, addr: &ModuleItemAddress, err_anchor: &Anchor) -> Res<U> {
+        if self.get_ctx().resolving_addresses.contains(addr) {
+            return Err(self.get_ctx().box_error(
+                err_anchor,
+                DiagnosticInfoMessage::CannotNotResolveType(addr.clone()),
+            ));
+        }
+        self.get_ctx().resolving_addresses.push(addr.clone());
+        let res = self.get_addressed_item_step(addr, err_anchor);
+        self.get_ctx().resolving_addresses.pop();
+        res
+    }
+
+    fn get_addressed_item_step(&mut self, addr: &ModuleItemAddress, err_anchor: &Anchor) -> Res<U> {
         let parsed_module = self.get_ctx().get_or_fetch_file(&addr.file, err_anchor)?;
         match addr.visibility {
             Visibility::Local => {
@@ -823,6 +840,19 @@ trait ValueModuleWalker<'a, R: FileManager + 'a, U> {
         }
     }
     fn get_addressed_item(&mut self, addr: &ModuleItemAddress, anchor: &Anchor) -> Res<U> {
+        if self.get_ctx().resolving_addresses.contains(addr) {
+            return self.get_ctx().error(
+                anchor,
+                DiagnosticInfoMessage::CannotNotResolveValue(addr.clone()),
+            );
+        }
+        self.get_ctx().resolving_addresses.push(addr.clone());
+        let res = self.get_addressed_item_step(addr, anchor);
+        self.get_ctx().resolving_addresses.pop();
+        res
+    }
+
+    fn get_addressed_item_step(&mut self, addr: &ModuleItemAddress, anchor: &Anchor) -> Res<U> {
         let parsed_module = self.get_ctx().get_or_fetch_file(&addr.file, anchor)?;
         match addr.visibility {
             Visibility::Local => {
@@ -1080,6 +1110,7 @@ impl<'a, R: FileManager> FrontendCtx<'a, R> {
 
             type_application_stack: vec![],
             instantiation_depth: 0,
+            resolving_addresses: vec![],
             recursive_generic_uuids: BTreeSet::new(),
             jsdoc_cache_by_file: BTreeMap::new(),
         }
